@@ -21,7 +21,9 @@ class MM(Case):
         else: tc = f'Tensor<{T},{M},{N}>'
         expr = 'A % B' if form == 'lazy' else 'matmul(A,B)'
         k = f'{ta} A(a); {tb} B(b); {tc} C = {expr}; ' + copy_out('C', 'c', M * N)
-        r = (f'for(int i=0;i<{M};++i) for(int j=0;j<{N};++j){{ {T} s=0; for(int k=0;k<{K};++k) s+=a[i*{K}+k]*b[k*{N}+j]; c[i*{N}+j]=s; }}')
+        acc = 's+=a[i*{K}+k]*b[k*{N}+j];' if T in FT else 's=({T})(({U})s+({U})a[i*{K}+k]*({U})b[k*{N}+j]);'
+        acc = acc.format(K=K, N=N, T=T, U={'int': 'unsigned', 'long': 'unsigned long'}.get(T))
+        r = (f'for(int i=0;i<{M};++i) for(int j=0;j<{N};++j){{ {T} s=0; for(int k=0;k<{K};++k) {acc} c[i*{N}+j]=s; }}')
         Case.__init__(s, f'mm{form}_{SHORT[T]}_{M}_{K}_{N}', [a, b, c], k, r, desc=f'{form} {T} {M}x{K}x{N}')
         s.dom = dom_for(T); s.depth_limit = 2 * K + 2
 
